@@ -373,7 +373,7 @@ class Recorder:
             m = scope.maps[0]
             self.events.append({'a': 'enter', 'f': self.num(scope), 'par': self.num(par),
                                 'path': list(p) if p is not None else [-1],
-                                'mode': mode_name(m[MODE]), 'minmode': m[MIN_MODE] is not None})
+                                'mode': mode_name(scope[MODE]), 'minmode': scope[MIN_MODE] is not None})
         elif ev == 'error':
             self.events.append({'a': 'error', 'f': self.num(scope), 'cls': type(other).__name__})
             self.errors[self.num(scope)] = other
